@@ -30,11 +30,17 @@ def main():
     assert rc == 0, out
     try:
         os.makedirs(f"{wt}/tests", exist_ok=True)
-        for d in demos:
-            if d.endswith(".rs"):
-                shutil.copy(os.path.join(seed_dir, d), f"{wt}/tests/{d}")
-            else:
-                shutil.copy(os.path.join(seed_dir, d), f"{wt}/{d}")
+        def put_demos():
+            for d in demos:
+                if d.endswith(".rs"):
+                    shutil.copy(os.path.join(seed_dir, d), f"{wt}/tests/{d}")
+                else:
+                    shutil.copy(os.path.join(seed_dir, d), f"{wt}/{d}")
+        def drop_demos():
+            for d in demos:
+                for q in (f"{wt}/tests/{d}", f"{wt}/{d}"):
+                    if os.path.exists(q):
+                        os.remove(q)
         def run_demos():
             res = {}
             for d in demos:
@@ -45,10 +51,12 @@ def main():
                     res[d] = {"pass": ok, "tail": out[-600:]}
                 else:
                     rc0, _ = sh("cargo build --offline -p fst-bin 2>&1 | tail -2", cwd=wt, env=env)
-                    rc, out = sh(f"bash {d} 2>&1 | tail -15", cwd=wt, env=dict(env, FST_BIN=f"{wt}/target/debug/fst", WT=wt))
+                    rc, out = sh(f"bash -o pipefail -c 'bash {d} 2>&1 | tail -15'", cwd=wt, env=dict(env, FST_BIN=f"{wt}/target/debug/fst", WT=wt))
                     res[d] = {"pass": rc == 0, "tail": out[-600:]}
             return res
+        put_demos()
         clean = run_demos()
+        drop_demos()
         meta["demo_on_clean_tree"] = {k: v["pass"] for k, v in clean.items()}
         rc, out = sh(f"git apply {patch}", cwd=wt)
         meta["patch_applies"] = rc == 0
@@ -58,6 +66,7 @@ def main():
         rc, out = sh("cargo test --workspace --offline 2>&1 | grep -E '^test result|FAILED|error(\\[|:)' | head -20", cwd=wt, env=env)
         passed = sum(int(m) for m in re.findall(r"test result: ok\. (\d+) passed", out))
         meta["existing_suite"] = {"passed": passed, "failed": "FAILED" in out or "error" in out, "out": out[-800:]}
+        put_demos()
         seeded = run_demos()
         meta["demo_with_patch"] = {k: v["pass"] for k, v in seeded.items()}
         meta["demo_tail_with_patch"] = {k: v["tail"][-300:] for k, v in seeded.items()}
